@@ -102,7 +102,8 @@ def attr_trees(tier):
     for t in T_VALUES:
         if t is not None:
             out.append(('type-attr', (('e', 'r', (), (('e', 'a', (('type', t),), ()), ('e', 'b', (('type', t.upper() if t else t), ('t', t)), ()))),)))
-    for t1, t2 in itertools.product(T_VALUES, repeat=2):
+    pair_values = T_VALUES if tier != 'quick' else (None, '', 'v', 'V', 'v w', 'w-v', 'x\nv', "'v'")
+    for t1, t2 in itertools.product(pair_values, repeat=2):
         out.append(('nested', (('e', 'a', attrs(t1, None, None), (('e', 'b', attrs(t2, 'i', 'c'), ()),)),)))
         out.append(('siblings', (('e', 'r', (), (('e', 'a', attrs(t1, None, 'c'), ()), ('e', 'b', attrs(t2, None, None), ()))),)))
     _CACHE[key] = out
@@ -367,6 +368,18 @@ def run_shard(desc):
                 r = _sel.run_case(sv, target, lst, ctx=ctx if tindex < 0 else None, text=text)
                 res.evaluations += 1
                 st = r['status']
+                if st == 'ok' and layer in ('A', 'PA') and tindex < 0:
+                    # metamorphic: a prefix map the selector never uses (and DEBUG) must not change the answer
+                    try:
+                        g2 = sv.select(text, soup, namespaces={'zz': 'urn:never-used'})
+                        same = len(g2) == len(r['got']) and all(x is y for x, y in zip(g2, r['got']))
+                    except Exception as e:
+                        same, g2 = False, repr(e)
+                    res.evaluations += 1
+                    if not same:
+                        st = 'mismatch'
+                        r = dict(r, status='mismatch', direction='changed-by-unused-namespace-map',
+                                 detail=f'select({text!r}) = {[_sel.brief(x) for x in r["got"]]} but with namespaces={{"zz": ...}} (prefix never used) it is {g2 if isinstance(g2, str) else [_sel.brief(x) for x in g2]}')
                 if st == 'ok':
                     if tindex < 0:
                         nw = len(r['want'])
